@@ -13,7 +13,7 @@ let show_out o = match o with
   | Refuse -> "Refuse" | Deliver -> "Deliver" | AlertOut d -> Printf.sprintf "AlertOut:%d" (int_of_z d)
   | AlertIn (l, d) -> Printf.sprintf "AlertIn:%d:%d" (int_of_z l) (int_of_z d) | Ignored -> "Ignored"
   | Handshake r -> Printf.sprintf "Handshake:%d" (b2i r)
-let show_st s = Printf.sprintf "v=%d hs=%d R=%d W=%d E=%d C=%d eds=%d ig=%d lb=%d" (b2i s.v13) (int_of_z s.hs) (b2i s.rsec) (b2i s.wsec)
+let show_st s = Printf.sprintf "v=%d hs=%s R=%d W=%d E=%d C=%d eds=%d ig=%d lb=%d" (b2i s.v13) (if s.err then "-" else string_of_int (int_of_z s.hs)) (b2i s.rsec) (b2i s.wsec)
                   (b2i s.err) (b2i s.closed) (int_of_z s.ed_seen) (int_of_z s.ignored) (b2i s.limbo)
 let () = iter_lines (fun l ->
   let a = Array.of_list (split_ws l) in
